@@ -64,7 +64,7 @@ type prepared struct {
 	nested    int
 	feats     string
 	weight    int
-	modes     []bool // fixWhitespace settings to generate
+	modes     []bool   // fixWhitespace settings to generate
 	opts      []string // table options forced by the shape's family (nil = rotation)
 }
 
@@ -212,11 +212,11 @@ type runner struct {
 	pending []job
 	modeSeq [2]int // parsers requested so far without / with fixWhitespace (rotates tableOptions)
 	// evidence
-	specs       int
-	grammars    map[*prepared]bool
-	nontrivial  map[*prepared]bool
-	stop        bool
-	batchLimit  int // parsers per RunBatch call; adapted to the measured build cost so that a
+	specs      int
+	grammars   map[*prepared]bool
+	nontrivial map[*prepared]bool
+	stop       bool
+	batchLimit int // parsers per RunBatch call; adapted to the measured build cost so that a
 	// batch in flight never overshoots the soft budget by much (coverage only, never an oracle)
 	sampled map[*prepared]bool
 }
@@ -644,7 +644,7 @@ func runExt(c *core.Ctx, r *runner, target, W int, feedCFG func() bool) {
 	}
 	// classes where range arithmetic is most delicate go first, so that a run that is cut short by
 	// the budget on a busy machine has seen them
-	first := []string{"fixWhitespace-matters:rule-level", famSameClass, "family:same-element-extracted-twice", "inner-part-ends-in-empty-symbol", "trailing-empty-symbol:annotated", "leading-empty-symbol", "order:nested-arrow-left-of-annotated-Y", "arrow:nested/d2", "arrow:list+", "arrow:empty-nested", "arrow:nested/nullable"}
+	first := []string{"fixWhitespace-matters:rule-level", famSameNames, famSameClass, "family:same-element-extracted-twice", "inner-part-ends-in-empty-symbol", "trailing-empty-symbol:annotated", "leading-empty-symbol", "order:nested-arrow-left-of-annotated-Y", "arrow:nested/d2", "arrow:list+", "arrow:empty-nested", "arrow:nested/nullable"}
 	var ordered []string
 	for _, f := range first {
 		if _, ok := byClass[f]; ok {
@@ -657,11 +657,12 @@ func runExt(c *core.Ctx, r *runner, target, W int, feedCFG func() bool) {
 		}
 	}
 	// the explicit family is visited three times per cycle (its members are all distinct lists)
-	if _, ok := byClass["family:same-element-extracted-twice"]; ok {
-		fam := "family:same-element-extracted-twice"
-		n := len(ordered)
-		ordered = slices.Insert(ordered, 2*n/3, fam)
-		ordered = slices.Insert(ordered, n/3, fam)
+	for _, fam := range []string{famTwice, famSameNames} {
+		if _, ok := byClass[fam]; ok {
+			n := len(ordered)
+			ordered = slices.Insert(ordered, 2*n/3, fam)
+			ordered = slices.Insert(ordered, n/3, fam)
+		}
 	}
 	classes = ordered
 	c.Set("shape_classes", classes)
